@@ -3,6 +3,7 @@ package main
 import (
 	"bytes"
 	"fmt"
+	"io"
 	"reflect"
 
 	"github.com/lugu/qiloop/meta/signature"
@@ -13,6 +14,35 @@ import (
 
 // shared by C02, C03, C07, C08: thin wrappers around the implementation's codecs that turn
 // every outcome into (class, data, bytes left) and never let a panic escape.
+
+// readerKind selects the io.Reader the decoders are given: 0 = *bytes.Reader, 1 = *bytes.Buffer
+// (what the bus passes: bytes.NewBuffer(payload)), 2 = a reader that returns one byte per Read.
+var readerKind = 0
+
+type lenReader interface {
+	io.Reader
+	Len() int
+}
+
+type oneByteReader struct{ r *bytes.Reader }
+
+func (o oneByteReader) Read(p []byte) (int, error) {
+	if len(p) == 0 {
+		return 0, nil
+	}
+	return o.r.Read(p[:1])
+}
+func (o oneByteReader) Len() int { return o.r.Len() }
+
+func mkReader(input []byte) lenReader {
+	switch readerKind {
+	case 1:
+		return bytes.NewBuffer(append([]byte(nil), input...))
+	case 2:
+		return oneByteReader{bytes.NewReader(input)}
+	}
+	return bytes.NewReader(input)
+}
 
 const (
 	ocOK = iota
@@ -37,7 +67,7 @@ func sigRead(sig string, input []byte) (o readerOut) {
 	if err != nil {
 		return readerOut{class: ocErr, left: len(input)}
 	}
-	r := bytes.NewReader(input)
+	r := mkReader(input)
 	data, err := typ.Reader().Read(r)
 	if err != nil {
 		return readerOut{class: ocErr, left: r.Len()}
@@ -88,7 +118,7 @@ func reflDec(rt reflect.Type, t *wg.Ty, input []byte) (o decOut) {
 		}
 	}()
 	p := reflect.New(rt)
-	r := bytes.NewReader(input)
+	r := mkReader(input)
 	if err := encoding.NewDecoder(encoding.DefaultCap(), r).Decode(p.Interface()); err != nil {
 		return decOut{class: ocErr, left: r.Len()}
 	}
